@@ -61,14 +61,26 @@ def search(prop, failure, repo, work, seed):
     suites = SUITES.get(prop, [])
     if not suites:
         return dict(found=False, note='no witness suite covers this property', bounds=BOUNDS)
-    r = _run(repo, 'search:' + ','.join(suites), work)
-    if r.get('found') and r.get('suite') in TIMED and r.get('case'):
-        # suites that use real threads: a hit must reproduce (3 out of 3) before it is reported
-        cf = os.path.join(work, 'witness_case.txt')
-        open(cf, 'w').write(r['case'])
-        again = [_run(repo, 'replay:' + cf, work) for _ in range(2)]
-        if not all(a.get('found') for a in again):
-            r = dict(found=False, note='a hit of suite %s (%s) did not reproduce: discarded as timing noise' % (r.get('suite'), r.get('case')))
+    # one suite at a time: a hit of a suite that uses real threads must reproduce (3 out of 3) before it is reported;
+    # a hit that does not reproduce is discarded as timing noise and the search goes on with the next suite
+    r = dict(found=False)
+    notes = []
+    for su in suites:
+        r1 = _run(repo, 'search:' + su, work)
+        if r1.get('found') and r1.get('suite') in TIMED and r1.get('case'):
+            cf = os.path.join(work, 'witness_case.txt')
+            open(cf, 'w').write(r1['case'])
+            again = [_run(repo, 'replay:' + cf, work) for _ in range(2)]
+            if not all(a.get('found') for a in again):
+                notes.append('a hit of suite %s (%s) did not reproduce: discarded as timing noise' % (r1.get('suite'), r1.get('case')))
+                continue
+        if r1.get('found'):
+            r = r1
+            break
+        if r1.get('note'):
+            notes.append(r1['note'][:300])
+    if not r.get('found') and notes:
+        r['note'] = ' | '.join(notes)[:900]
     r['suites'] = suites
     r['bounds'] = BOUNDS + (THOROUGH_BOUNDS if DEPTH[0] == 'thorough' else '')
     return r
